@@ -979,6 +979,7 @@ def _cover_report():
             else:
                 missing.append([name, ln, linecache.getline(code.co_filename, ln).strip()])
     root = os.path.normpath(os.path.join(os.path.dirname(os.path.abspath(__file__)), '..', '..'))
+    os.makedirs(os.path.join(root, 'evidence', 'dev'), exist_ok=True)
     with open(os.path.join(root, 'evidence', 'dev', 'C06_coverage.json'), 'w') as f:
         json.dump(dict(total=total, reached=reached, missing=missing), f, indent=1)
     print('C06 coverage of anchored functions: %d/%d lines reached' % (reached, total), file=sys.stderr)
